@@ -109,6 +109,18 @@ func c13QuotaScenario(name string, limit uint32, pre, nNew, nClose int, raiseTo 
 				mu.Unlock()
 			})
 		}
+		if nClose < 0 {
+			// one application thread closes all pre-opened streams in turn
+			x.Go("closeAll", func() {
+				for _, s := range w.first {
+					vsched.Yield()
+					s.Close(errors.New("app done"))
+					mu.Lock()
+					closed++
+					mu.Unlock()
+				}
+			})
+		}
 		for i := 0; i < nClose; i++ {
 			s := w.first[i]
 			x.Go(fmt.Sprintf("close%d", i), func() {
@@ -297,6 +309,7 @@ func TestVerif_C13_NewStreamSched(t *testing.T) {
 	scs := []vsched.Scenario{
 		c13QuotaScenario("quota/mcs1/pre1/new2/close1", 1, 1, 2, 1, 0, b),
 		c13QuotaScenario("quota/mcs2/pre2/new2/close2", 2, 2, 2, 2, 0, b),
+		c13QuotaScenario("quota/mcs2/pre2/new2/closeAll", 2, 2, 2, -1, 0, 2),
 		c13QuotaScenario("quota/mcs1/pre1/new2/raise2", 1, 1, 2, 0, 2, b),
 		c13QuotaScenario("quota/mcs1/pre1/new2/close1+raise2", 1, 1, 2, 1, 2, b),
 		c14GoAwayScenario("goaway1/pre1/new2", 1, 2, 1, b),
